@@ -903,7 +903,7 @@ func main() {
 	runner.Main(runner.Check{
 		Property: "C19",
 		Level:    "exploration",
-		Rule:     "one case = one concurrent history: 2-6 goroutines each running 1-3 of Set/Get/Err/IsSet/Signal/Wait/poll on one drpcsignal.Signal (or Get/Get+wait/Close/Send/Recv/Full/Make on one Chan), with one goroutine parked at one of the 7 (Signal) / 2 (Chan) internal points until every other goroutine has finished or blocked, then released; plus spin-barrier stress rounds of the four first-use races (Get vs Close, Signal vs Set, 2 Set vs 2 Signal, Send vs Recv vs Make) of closed-implies-visible (two pollers and a parked receiver on an existing channel racing Set), of set-implies-value (pollers of Get / IsSet+Err racing the only Set) and of Make racing the first Get calls. Oracles: exactly one Set wins; porcupine linearizability of the recorded history against a write-once register; one channel identity; channel closed once the winning Set / Close returned; census shows no blocked waiter; no panic; race detector silent. Non-trivial: every case (>= 2 goroutines). Distinct: by programs, park point and whether the park was reached.",
+		Rule:     "one case = one concurrent history: 2-6 goroutines each running 1-3 of Set/Get/Err/IsSet/Signal/Wait/poll on one drpcsignal.Signal (or Get/Get+wait/Close/Send/Recv/Full/Make on one Chan), with one goroutine parked at one of the 7 (Signal) / 2 (Chan) internal points until every other goroutine has finished or blocked, then released; plus spin-barrier stress rounds of the four first-use races (Get vs Close, Signal vs Set, 2 Set vs 2 Signal, Send vs Recv vs Make) of closed-implies-visible (two pollers and a parked receiver on an existing channel racing Set), of set-implies-value (pollers of Get / IsSet+Err racing the only Set) and of Make racing the first Get calls. Oracles: exactly one Set wins; porcupine linearizability of the recorded history against a write-once register; one channel identity; channel closed once the winning Set / Close returned; census shows no blocked waiter; no panic; race detector silent. Non-trivial: every case (>= 2 goroutines). Distinct: by programs, park point and whether the park was reached. (chan-buffer-full) directed programs with more Sends than the buffer holds before anybody receives: every Send is matched by a Recv in the end, none is dropped.",
 		Assumptions: []string{
 			"Chan histories never Send/Full/Make after Close (sending on a closed channel panics by Go semantics and the library never does it)",
 			"an open channel observed by a poll concurrent with the winning Set is allowed; a poll that starts after that Set returned must see it closed",
